@@ -87,7 +87,7 @@ def fresh_module(rng, pkg, style, reuse_from=None):
     f = g.function(ag, fn)
     c = g.class_(ag, cn, f"{qn}.{cn}", [], 0)
     return {"kind": "module", "name": name, "pkg": root, "qname": qn, "classes": [c], "functions": [f], "enums": [],
-            "doc": "", "imports": set()}
+            "doc": "", "imports": set(), "generic_tail": True}
 
 
 def stub_files(res) -> dict:
